@@ -19,7 +19,8 @@ def gen_scenarios(rnd: random.Random, count, topos=TOPOS, max_r=4):
         nr = rnd.randint(2, max_r)
         stages = {'single': ['S1'], 'seq': ['S1', 'S2'], 'ens': ['A', 'B'], 'switch': ['A', 'B']}[topo]
         fail = {s: sorted(r for r in range(1, nr + 1) if rnd.random() < 0.25) for s in stages}
-        out.append({'topo': topo, 'R': nr, 'fail': fail, 'route': [rnd.choice('AB') for _ in range(nr)],
+        pre = {s: ([2] if rnd.random() < 0.3 else []) for s in stages}      # the stage's preprocess hook rejects request 2
+        out.append({'topo': topo, 'R': nr, 'fail': fail, 'pre': pre, 'route': [rnd.choice('AB') for _ in range(nr)],
                     'failfast': rnd.random() < 0.6, 'abandon': [1] if rnd.random() < 0.25 else [],
                     'dur': {s: [rnd.choice([0, 0, 1, 2, 4]) for _ in range(nr + 1)] for s in stages},
                     'delay': [rnd.choice([0, 0, 1, 2]) for _ in range(nr + 1)],
@@ -29,7 +30,8 @@ def gen_scenarios(rnd: random.Random, count, topos=TOPOS, max_r=4):
 
 def header(sc):
     fail = {s: sc['fail'].get(s, []) for s in ('S1', 'S2', 'A', 'B')}
-    return {'R': sc['R'], 'topo': sc['topo'], 'failfast': sc['failfast'], 'fail': fail,
+    pre = {s: sc.get('pre', {}).get(s, []) for s in ('S1', 'S2', 'A', 'B')}
+    return {'R': sc['R'], 'topo': sc['topo'], 'failfast': sc['failfast'], 'fail': fail, 'pre': pre,
             'route': sc['route'] if sc['topo'] == 'switch' else ['A'] * sc['R'], 'abandon': sc['abandon']}
 
 
@@ -164,6 +166,16 @@ def _make_scenario(sc):
                 ys = [(stage, v) for v in xs]
                 return ys if batch else ys[0]
 
+        if sc.get('pre', {}).get(stage):
+            rejected = set(sc['pre'][stage])
+
+            def preprocess(self, x):
+                r = req_of(x)
+                if r in rejected:
+                    raise ElemError(r, 'P' + stage)
+                return x
+
+            Wk.preprocess = preprocess
         Wk.__name__ = f'W{stage}'
         return Wk
 
@@ -249,7 +261,8 @@ def _make_scenario(sc):
                     txt = get_remote_traceback(y) if is_remote_exception(y) else ''.join(traceback.format_exception(y))
                 except Exception:
                     txt = ''
-                tb = ('raise ElemError' in txt and 'in call' in txt and y.args == (d['req'], d['path'][0]))
+                tb = ('raise ElemError' in txt and ('in call' in txt or 'in preprocess' in txt)
+                      and y.args == (d['req'], d['path'][0]))
             detsched.emit('Ret', r=r, tb=bool(tb), **d)
 
         ths = [threading.Thread(target=caller, args=(r,), name=f'caller-{r}') for r in range(1, R + 1)]
